@@ -18,6 +18,7 @@ PY
 for t in xorwow state_fields shared_mutable json_keys; do
   python3 translators/$t.py > _work/translator_$t.log 2>&1 || echo "translator $t reported a problem (its check will report)"
 done
+python3 translators/steppers.py /repo coq/Generated/C08_steppers.v > _work/translator_steppers.log 2>&1 || echo "translator steppers reported a problem (its check will report)"
 python3 - <<'PY'
 import sys
 sys.path.insert(0, "tools")
